@@ -119,6 +119,35 @@ def scenario_family(rng, tier, *, nested=True, flat=True, callbacks=True, depth=
     return out
 
 
+def as_config_file(scn, rng):
+    """the same scenario taken through tickit's own loading path (sim.run_scenario `from_file`): written to a YAML
+    configuration file, read, wired and built by read_configs / InverseWiring.from_component_configs / build_simulation and
+    started through TickitSimulation.run() - as one simulation or DIVIDED over several that share the bus (scheduler here,
+    components there, in any start order).  Initial time 0 and speed 1 (what build_simulation gives)."""
+    import copy
+    s2 = copy.deepcopy(scn)
+    s2["t0"] = 0
+    s2["speed"] = [1, 1]
+    tops = [c["name"] for c in s2["components"]]
+    r = rng.random()
+    if r < 0.3 or len(tops) < 2:
+        parts = [{"scheduler": True, "components": None}]
+    elif r < 0.5:
+        parts = [{"scheduler": True, "components": "none"}, {"scheduler": False, "components": None}]
+    else:
+        rng2 = list(tops)
+        rng.shuffle(rng2)
+        k = rng.randrange(1, len(rng2))
+        a, b = sorted(rng2[:k], key=tops.index), sorted(rng2[k:], key=tops.index)
+        parts = [{"scheduler": True, "components": a}, {"scheduler": False, "components": b}]
+        if rng.random() < 0.5:
+            parts.reverse()
+    s2["from_file"] = parts
+    if len(parts) > 1 and rng.random() < 0.6:
+        s2["start_delays"] = {f"#part{k}": rng.choice((0, 1, 3)) for k in range(len(parts))}
+    return s2
+
+
 def corpus_scenarios():
     """hand-kept minimised scenarios (past failures / documented shapes); run first"""
     import json
